@@ -38,6 +38,9 @@ struct Case {
     additive: bool,
     /// sub-check: the same training with and without validation data (dropout layers present)
     val_invariance: bool,
+    /// `set_optimizer` is never called: the network (and every feedback block) trains with the documented
+    /// standard optimizer, plain SGD with learning rate 0.1
+    implicit_default: bool,
 }
 
 fn decode(tape: &[u32]) -> Case {
@@ -66,7 +69,7 @@ fn decode(tape: &[u32]) -> Case {
     let fitted = t.chance(1, 6);
     let calls = if t.chance(1, 4) { 2 } else { 1 };
     let additive = t.chance(1, 8);
-    let mut case = Case { spec, kind, obj, n, batch, epochs: t.usize(1, 4) as i32, wseed: t.raw(), dseed: t.raw(), fitted, calls, additive, val_invariance: false };
+    let mut case = Case { spec, kind, obj, n, batch, epochs: t.usize(1, 4) as i32, wseed: t.raw(), dseed: t.raw(), fitted, calls, additive, val_invariance: false, implicit_default: false };
     if !additive && t.chance(1, 8) {
         // a network with dropout on (de)convolution and dense layers, ending in a dense layer
         let oo = GenOpts { max_layers: 2, max_hw: 4, max_c: 2, max_dense: 5, allow_feedback: true, allow_dropout: true, end_dense: true, acts: &[ActK::Linear, ActK::Tanh, ActK::Sigmoid, ActK::Leaky], ..GenOpts::default() };
@@ -88,6 +91,10 @@ fn decode(tape: &[u32]) -> Case {
         case.batch = t.usize(1, case.n);
         case.calls = 1;
         case.fitted = false;
+    }
+    if !additive && !case.val_invariance && t.chance(1, 10) {
+        case.implicit_default = true;
+        case.kind = Kind::SGD { lr: 0.1, decay: None };
     }
     if additive {
         // dense -> feedback block with mixed bias settings -> dense, plain SGD, two samples in one group
@@ -294,7 +301,11 @@ fn check(case: &Case, ev: &mut CaseEv) -> CheckResult {
     apply_params(&mut net, &ps0);
     net.set_objective(lib_obj(case.obj), None);
     let kind = case.kind.clone();
-    catch(std::panic::AssertUnwindSafe(|| net.set_optimizer(kind.create()))).map_err(Fail::new)?;
+    if case.implicit_default {
+        ev.class("standard optimizer (set_optimizer never called)");
+    } else {
+        catch(std::panic::AssertUnwindSafe(|| net.set_optimizer(kind.create()))).map_err(Fail::new)?;
+    }
 
     let n_in = count(&spec.input);
     let out_dims = final_dims(spec);
@@ -484,7 +495,7 @@ impl Prop for C04 {
         Some(3)
     }
     fn rule(&self) -> String {
-        "tape-decoded training run: 1-3-layer network (dense, convolution, deconvolution, max-pool mixes, no dropout; one network in four may contain feedback blocks without internal skips - the replay then gives every unrolled copy its own slot in the block's own optimizer and re-couples the copies by their mean after each step), one of five optimizers with option variants, one of seven objectives (sigmoid head for the probability objectives), N = 1..12 distinct samples (1/8 of the cases: N = 65..140 with B >= 60, i.e. groups beyond the internal 64-sample chunk), B = 1..N+3 (B = 1, B not dividing N, B > N all occur), in 1/6 of the cases the first group's targets equal the initial predictions bit for bit (zero loss and gradient), E = 1..4 epochs, known start weights; one run in four calls learn() twice on the same network (step numbers restart at 1 in every call); one case in eight compares training with and without validation data on networks with dropout layers (weights and training losses must be bit-identical); one case in eight is the additivity sub-check: plain SGD, a dense -> feedback block (mixed bias settings) -> dense network, one group of 2-4 samples must move every parameter by the sum of the single-sample steps. Oracle: replayed reference trainer (groups of B in order, per-sample gradients at the pre-step weights from a never-trained second instance, summed in order, one step of a separately constructed optimizer with step number = epoch, loss = mean over groups of mean per-sample loss); final weights and the loss vector must agree within 1e-4 relative / 1e-6 absolute (bit-identical today). Non-trivial: >= 2 groups, B >= 2 and (B does not divide N or E >= 2). Distinct = (architecture, N, B, E, optimizer, objective).".into()
+        "tape-decoded training run: 1-3-layer network (dense, convolution, deconvolution, max-pool mixes, no dropout; one network in four may contain feedback blocks without internal skips - the replay then gives every unrolled copy its own slot in the block's own optimizer and re-couples the copies by their mean after each step), one of five optimizers with option variants (one run in ten never calls set_optimizer and must train with the documented standard optimizer, plain SGD with learning rate 0.1, also inside feedback blocks), one of seven objectives (sigmoid head for the probability objectives), N = 1..12 distinct samples (1/8 of the cases: N = 65..140 with B >= 60, i.e. groups beyond the internal 64-sample chunk), B = 1..N+3 (B = 1, B not dividing N, B > N all occur), in 1/6 of the cases the first group's targets equal the initial predictions bit for bit (zero loss and gradient), E = 1..4 epochs, known start weights; one run in four calls learn() twice on the same network (step numbers restart at 1 in every call); one case in eight compares training with and without validation data on networks with dropout layers (weights and training losses must be bit-identical); one case in eight is the additivity sub-check: plain SGD, a dense -> feedback block (mixed bias settings) -> dense network, one group of 2-4 samples must move every parameter by the sum of the single-sample steps. Oracle: replayed reference trainer (groups of B in order, per-sample gradients at the pre-step weights from a never-trained second instance, summed in order, one step of a separately constructed optimizer with step number = epoch, loss = mean over groups of mean per-sample loss); final weights and the loss vector must agree within 1e-4 relative / 1e-6 absolute (bit-identical today). Non-trivial: >= 2 groups, B >= 2 and (B does not divide N or E >= 2). Distinct = (architecture, N, B, E, optimizer, objective).".into()
     }
     fn run_case(&self, tape: &[u32], ev: &mut CaseEv) -> CheckResult {
         check(&decode(tape), ev)
